@@ -177,6 +177,13 @@ def recursion_order(ctx, o, ps: PassShape, pt):
     # the loop body must reach the call unconditionally
     conds_call = [x for x in ps.conds(c, expand=False)]
     conds_loop = [x for x in ps.conds(fo, expand=False)]
+    lv = fo.target.id if isinstance(fo.target, ast.Name) else (c.args[0].id if c.args and isinstance(c.args[0], ast.Name) else None)
+    memo_arg = None
+    if ps.memo in ps.f.params and len(c.args) >= ps.f.params.index(ps.memo):
+        memo_arg = c.args[ps.f.params.index(ps.memo) - 1]
+    # a guard that only repeats the callee's own memo test (`if dep.id not in memo: pass(dep, ..)`) skips nothing the callee would do
+    if lv and isinstance(memo_arg, ast.Name):
+        conds_call = [(t, p) for t, p in conds_call if not (facts.cond_is(t, p, f"{lv}.id in {memo_arg.id}", want=False))]
     if len(conds_call) > len(conds_loop):
         o.refute(ps.f, c, c, "the recursive call on a dependency is conditional inside the loop")
         ok = False
@@ -439,13 +446,25 @@ def roots_and_preflight(ctx, o, S, validators):
     for st, tgt, val in facts.attr_stores(init, S['bound']):
         icn = cfg_of(init).node_of(st)
         val = exi.expand(val, icn) if icn is not None else val
-        if match(f"{arg} if {arg} is not None else datetime.now()", val) or match(f"{arg} or datetime.now()", val) or \
-                match(f"datetime.now() if {arg} is None else {arg}", val) or match(arg, val):
+        if match(f"{arg} or datetime.now()", val):
             ok = True
+            o.site(init, st, src(st))
+            continue
+        # every case of the stored value (conditional expression cases joined with the path condition of the store) is the
+        # constructor argument, or the clock on the path where the argument is None
+        path = facts.node_conditions(prog, init, st, ctx.typer, expand=True)
+        good = True
+        for cc, case in sched.expr_cases(val):
+            allc = list(path) + list(cc)
+            arg_none = any(facts.cond_is(t, p, f"{arg} is None", want=True) or facts.cond_is(t, p, arg, want=False) for t, p in allc)
+            if match(arg, case) or (_is_now(case) and arg_none):
+                continue
+            good = False
+        ok = True
+        if good:
             o.site(init, st, src(st))
         else:
             o.refute(init, st, st, f"project bound is not the constructor's `{arg}`")
-            ok = True
     if not ok:
         o.undecided(init, init.node, '__init__', "project bound initialisation not found")
 
